@@ -1,19 +1,21 @@
 import Driver.Proto
 import TongoModel.Json
+import TongoModel.JsonCell
+import TongoModel.CellFmt
 /-! Line handlers for property C20 (JSON forms). Value / answer syntax: see harness/cmd/vh/c20.go. -/
 namespace Driver
 open Tongo Tongo.Json Tongo.Dec
 
-def strOfBytes (bs : List UInt8) : Str := bs.map fun b => Char.ofNat b.toNat
-def bytesOfStr (s : Str) : List UInt8 := s.map fun c => UInt8.ofNat c.toNat
+private def strOfBytes (bs : List UInt8) : Str := bs.map fun b => Char.ofNat b.toNat
+private def bytesOfStr (s : Str) : List UInt8 := s.map fun c => UInt8.ofNat c.toNat
 
-def docArg (h : String) : Option Str := (hexArg h).map strOfBytes
-def docOut (s : Str) : String := "ok " ++ hexOut (bytesOfStr s)
+private def docArg (h : String) : Option Str := (hexArg h).map strOfBytes
+private def docOut (s : Str) : String := "ok " ++ hexOut (bytesOfStr s)
 
 private def binArg (s : String) : Option (List Bool) := if s == "-" then some [] else Bits.ofBinString? s
 private def binOut (l : List Bool) : String := if l.isEmpty then "-" else Bits.toBinString l
 
-def anyArg (s : String) : Option (Option Anycast) :=
+private def anyArg (s : String) : Option (Option Anycast) :=
   if s == "-" then some none
   else match s.splitOn "," with
     | [d, p] => match d.toNat?, p.toNat? with
@@ -21,11 +23,11 @@ def anyArg (s : String) : Option (Option Anycast) :=
       | _, _ => none
     | _ => none
 
-def anyOut : Option Anycast → String
+private def anyOut : Option Anycast → String
   | none => "-"
   | some a => s!"{a.depth},{a.pfx}"
 
-def addrArg (s : String) : Option MsgAddr :=
+private def addrArg (s : String) : Option MsgAddr :=
   match s.splitOn "/" with
   | ["none"] => some .none
   | ["ext", b] => (binArg b).map .extern
@@ -49,11 +51,11 @@ private def addrOut : MsgAddr → String
 
 /-- a codec of the model for one family: printer from value tokens, parser to canonical text; `n` = number of type
 tokens, `m` = number of value tokens -/
-structure Codec where
+private structure Codec where
   print : List String → Option Str
   parse : Str → Outcome String
 
-def outMap {α} (f : α → String) : Outcome α → Outcome String
+private def outMap {α} (f : α → String) : Outcome α → Outcome String
   | .ok a => .ok (f a)
   | .err e => .err e
   | .panic e => .panic e
@@ -80,11 +82,18 @@ private def codecOf : List String → Option (Codec × List String)
       some (⟨fun | [v] => v.toNat?.map printMagic | _ => none, fun p => outMap toString (parseMagic p)⟩, rest)
   | "bitstr" :: rest =>
       some (⟨fun | [b] => (binArg b).map printBitString | _ => none, fun p => outMap binOut (parseBitString p)⟩, rest)
+  | "anycast" :: rest =>
+      some (⟨fun | [a] => (anyArg a).bind fun o => o.map printAnycastJson | _ => none,
+             fun p => outMap (fun a => anyOut (some a)) (parseAnycastJson p)⟩, rest)
+  | "cell" :: rest =>
+      some (⟨fun _ => none, fun p => outMap (fun (t, r) => CellFmt.canonString t [r]) (parseCellJson p)⟩, rest)
+  | "anycell" :: rest =>
+      some (⟨fun _ => none, fun p => outMap (fun (t, r) => CellFmt.canonString t [r]) (parseCellJson p)⟩, rest)
   | "addr" :: rest =>
       some (⟨fun | [a] => (addrArg a).map printMsgAddr | _ => none, fun p => outMap addrOut (parseMsgAddr p)⟩, rest)
   | _ => none
 
-def maybeCodec (c : Codec) : Codec :=
+private def maybeCodec (c : Codec) : Codec :=
   ⟨fun
     | ["none"] => some (printMaybe (fun (s : Str) => s) none)
     | "some" :: v => (c.print v).map fun s => printMaybe (fun (s : Str) => s) (some s)
@@ -93,11 +102,29 @@ def maybeCodec (c : Codec) : Codec :=
     -- parseMaybe over the canonical text of the inner value
     outMap (fun | none => "none" | some s => "some " ++ s) (parseMaybe c.parse p)⟩
 
-def resolve : List String → Option (Codec × List String)
+private def resolve : List String → Option (Codec × List String)
   | "maybe" :: rest => (codecOf rest).map fun (c, r) => (maybeCodec c, r)
   | toks => codecOf toks
 
-def outcomeLine : Outcome String → String
+private def opOut : Option Nat → String
+  | none => "-"
+  | some n => toString n
+
+/-- the envelope with the cell codec of the BOC model; every other non-empty SumType is reported by name (the
+registry of known body types lives on the Go side, the Go executor reports the same shape) -/
+private def envelopeLine (p : Str) : Outcome String :=
+  match unmarshalEnvelope p with
+  | .err e => .err e
+  | .panic e => .panic e
+  | .ok r =>
+    if r.sumType = [] then .ok s!"empty {opOut r.opCode}"
+    else if r.sumType = unknownName then
+      match r.value with
+      | none => .err "no value"
+      | some raw => outMap (fun (t, root) => s!"unknown {opOut r.opCode} {CellFmt.canonString t [root]}") (parseCellJson raw)
+    else .ok s!"named {hexOut (bytesOfStr r.sumType)} {opOut r.opCode}"
+
+private def outcomeLine : Outcome String → String
   | .ok s => "ok " ++ s
   | .err _ => "err"
   | .panic _ => "panic"
@@ -110,6 +137,11 @@ def opsC20 : List (String × Handler) := [
       | none => "bad-op"
     | none => "bad-op"),
   ("json.parse", fun toks =>
+    match toks with
+    | ["envelope", _, doc] => (match docArg doc with
+      | some p => outcomeLine (envelopeLine p)
+      | none => "bad-op")
+    | _ =>
     match resolve toks with
     | some (c, [doc]) => match docArg doc with
       | some p => outcomeLine (c.parse p)
